@@ -130,6 +130,12 @@ def random_chain(rnd, n_elems, *, want_selflock=None, with_current=None, stress=
             e.update(d2)
         elems.append(e)
     sanitize(elems)
+    if rnd.random() < 0.3:
+        # names that do not sort like the chain (nothing may depend on them beyond being distinct)
+        pool = ['zeta', 'alpha', 'Mu', 'gear 10', 'gear 2', 'a', 'B', 'motor', 'wheel', '0', 'ω', 'gear_1', 'x' * 40, 'load', 'pwm', 'torque']
+        rnd.shuffle(pool)
+        for k, e in enumerate(elems):
+            e['name'] = pool[k] if k < len(pool) else f'n{k}'
     return elems
 
 
